@@ -22,7 +22,7 @@ from harness.core import translated_specs
 TRANSLATED = translated_specs("IndividualEqGen", "CrowdingGuardGen", "SelectionGen", "CrowdingGen")
 TRUSTED = [
     "Coq 8.16.1 kernel; vm_compute for model evaluation (no native_compute)",
-    "hand-written model Model/Selection.v tied to operators.py by this correspondence run (crowding values bit for bit, id lists and winners exactly)",
+    "hand-written model Model/Selection.v tied to operators.py by this correspondence run (crowding values per id bit for bit, the sorted set of surviving ids, the winner id)",
     "FloatAxioms.ltb_spec / eqb_spec and the primitive float operations (standard library) for the float order instance C03_float_order",
     "list(set(population)) iteration order, random.sample and random.choice results are oracle inputs of the model; the theorems quantify over all of them",
     "Python's list.sort / sorted are stable sorts that only ask `<` of the keys; any stable sort gives the same result for a strict weak order (modelled by insertion sort)",
